@@ -352,6 +352,11 @@ def cases(tier, seed):
             c.update(d)
             c["hist"] = h
             out.append(c)
+        if depth < 3 and d["dom"] != "emb":
+            # quick tier: the one family of length 3 whose middle letter changes what the outer two must agree on: locate, move, locate again
+            # on the SAME mesh object (whatever the first location built has to follow the nodes)
+            for X in ("T", "R90", "Rg", "S"):
+                out.append(dict(d, kind="motion", hist=["P", X, "P"]))
         # the same histories of length 2 observed only at the END (no observation in between that would warm the caches in a
         # particular order)
         for h in _histories(2):
